@@ -2,7 +2,7 @@
 from verif import *
 from props.routers import *
 
-THEOREMS = ['c10_single_bound', 'c10_error_code_is_replier_already_bound', 'c10_refused_replier_told_then_closed', 'c10_bound_replier_leaves_only_by_departure']
+THEOREMS = ['c10_single_bound', 'c10_error_code_is_replier_already_bound', 'c10_refused_replier_told_then_closed', 'c10_bound_replier_leaves_only_by_departure', 'c10_rejection_never_left_waiting']
 
 
 def run(tier, seed, replay=None):
